@@ -149,7 +149,7 @@ theorem addTrans_new {st st' : State} {X tgt : Nat} (h : addTrans g st X tgt = .
     refine ⟨by omega, ?_⟩
     rw [h6, if_pos ⟨by omega, rfl⟩]
 
-theorem InvC.push {lo hi : Nat} {sts : Array State} (h : InvC g lo hi sts) (hlo : lo ≤ sts.size) (hhi : hi ≤ sts.size)
+theorem InvC.push {lo hi : Nat} {sts : Array State} (h : InvC g lo hi sts) (_hlo : lo ≤ sts.size) (_hhi : hi ≤ sts.size)
     {X : Nat} {items : List Item} (haug : ∀ it ∈ items, it.prod = 0 → 0 ∈ it.la) :
     InvC g lo hi (sts.push (freshState g X items)) := by
   have hget : ∀ j, (sts.push (freshState g X items))[j]? =
